@@ -3,6 +3,7 @@
   executable model definitions.  Core-only: imports Model/* and Core/* only.
 -/
 import FerretVerif.Model.Num
+import FerretVerif.Drv.Limbs
 
 open FerretVerif
 
@@ -20,7 +21,7 @@ def eachLine (f : String → String) : IO Unit := do
   loop 1000000000
   stdout.flush
 
-def fields (l : String) : List String := (l.splitOn " ").filter (· ≠ "")
+open FerretVerif.Drv
 
 def cmdLossless (l : String) : String :=
   match fields l with
@@ -35,4 +36,5 @@ def cmdLossless (l : String) : String :=
 def main (args : List String) : IO UInt32 := do
   match args with
   | ["lossless"] => eachLine cmdLossless; return 0
+  | ["limbs"] => eachLine cmdLimbs; return 0
   | _ => IO.eprintln s!"fvdriver: unknown subcommand {args}"; return 2
